@@ -365,13 +365,20 @@ def twins_sym(rng, lines):
     vars_ = [(p, lines[p]) for p in blocks if lines[p].startswith(("Var=", "Mux=")) and truncations_sym(lines[p])]
     if vars_ and rng.random() < 0.7:
         p, st = rng.choice(vars_)
-        g = re.match(r"(?:Var=\S+ +\S+|Mux=\S+) +(\d+),(\d+)", st)
+        g = re.match(r"(?:Var=\S+ +\S+|Mux=\S+) +(\d+),(\d+)(?: +([0-9A-Fa-f]+h?))?", st)
         if g:
-            # (the selector value of a Mux= line is kept out for now: `Mux=mode_a 0,8 abc` in front of the Var= lines of a block is
-            # recorded as load error but leaves multiplexor = 'abc' behind, the Var= lines that follow fail too and their signals
-            # are lost - a defect of the unchanged reader, reported in round 9)
-            which = rng.choice([1, 2])
+            # (the selector value of a Mux= line is among the replaced fields since the repair of round 10: `Mux=mode_a 0,8 abc` used to
+            # leave multiplexor = 'abc' behind, so that the Var= lines that follow failed too; a word in a /f: /o: /min: /max: switch of
+            # a Mux= line used to make load raise at the end of the frame)
+            fields = [1, 2] + ([3] if st.startswith("Mux=") and g.group(3) is not None else [])
+            which = rng.choice(fields)
             bad = st[:g.start(which)] + rng.choice(WORDS[:3]) + st[g.end(which):]
+            if st.startswith("Mux=") and rng.random() < 0.3:
+                # junk in the value of a switch of a Mux= line (the value is converted when the multiplexer signal is made)
+                bad = st.rstrip() + " /%s:%s" % (rng.choice(["f", "o", "min", "max"]), rng.choice(WORDS[:3]))
+                cm = statement_part_sym(st)
+                if cm < len(st):
+                    bad = st[:cm].rstrip() + " /%s:%s " % (rng.choice(["f", "o", "min", "max"]), rng.choice(WORDS[:3])) + st[cm:]
             later = [q for q in blocks if q > p and not any(lines[r].strip() == "" for r in range(p, q))]
             found.append([rng.choice(later) if later and rng.random() < 0.5 else p + 1 if p + 1 in blocks else p, bad, "bad"])
     return found
